@@ -16,7 +16,9 @@ Definition PANIC : N := 340282366920938463463374607431768211455.
 
 Definition verdict (run : list N -> list N) (holds : list N -> list N -> bool) (c : case) : N :=
   let '(id, a, o) := c in
-  (if list_eqb (run a) o then 0 else 1) + (if holds a o then 0 else 2).
+  (* an observation that is just the harness's catch-all panic code fails every property checker; the
+     checkers are not run on it (they may take the numbers they are given as sizes / exponents) *)
+  (if list_eqb (run a) o then 0 else 1) + (if list_eqb o [PANIC] then 2 else if holds a o then 0 else 2).
 
 Definition verdicts (run : list N -> list N) (holds : list N -> list N -> bool) (cs : list case) : list (N * N) :=
   filter (fun p => negb (snd p =? 0)) (map (fun c => (fst (fst c), verdict run holds c)) cs).
